@@ -77,7 +77,24 @@ def reverse_case(T, L_, cfg=None, Q='highp'):
                     res.append(R.ob(oid, 'bit_reverse', R.REFUTED, 'output bit %d is %s, which differs from input bit %d for %s' % (wit[0], tm.show(tm.slice_(t, wit[0], 1), 4), w - 1 - wit[0], wit[1]),
                                     where=R.where_of(it, t), kernel=k.source()))
                 else:
-                    res.append(R.ob(oid, 'bit_reverse', R.UNDECIDED, 'not a pure bit function: %s' % _perm(t, w), where=R.where_of(it, t), kernel=k.source()))
+                    # not a pure bit function (a sign extension, an arithmetic shift ...): the derived lane term evaluated at the one-hot patterns, all ones and a mixed pattern
+                    from laneflow import ceval as CE
+                    xin = L.in_term('a', ty, lane)
+                    bad = None
+                    for pv in [1 << b_ for b_ in range(w)] + [(1 << w) - 1, 0xA5A5A5A5A5A5A5A5 & ((1 << w) - 1), 0]:
+                        try:
+                            got = CE.evaluate(t, {xin: pv})
+                        except CE.NoValue:
+                            continue
+                        want = int(format(pv, '0%db' % w)[::-1], 2)
+                        if got != want:
+                            bad = (pv, got, want)
+                            break
+                    if bad:
+                        res.append(R.ob(oid, 'bit_reverse', R.REFUTED, 'bitfieldReverse(%#x) is %#x, the reversed pattern is %#x (not a pure bit function: %s)' % (bad[0], bad[1], bad[2], _perm(t, w)[:200]),
+                                        where=R.where_of(it, t), kernel=k.source()))
+                    else:
+                        res.append(R.ob(oid, 'bit_reverse', R.UNDECIDED, 'not a pure bit function: %s' % _perm(t, w), where=R.where_of(it, t), kernel=k.source()))
         return res
     return R.Case(name, [k], judge)
 
